@@ -480,6 +480,10 @@ func (s *Server) blobUploadPatch(repoStr, sessionID string) http.HandlerFunc {
 				// the request body could not be read, the session keeps what was received
 				w.WriteHeader(http.StatusBadRequest)
 				_ = types.ErrRespJSON(w, types.ErrInfoBlobUploadInvalid("failed to read request body"))
+			} else if errors.Is(err, types.ErrNotFound) {
+				// the session was cancelled or expired while the request was in progress
+				w.WriteHeader(http.StatusBadRequest)
+				_ = types.ErrRespJSON(w, types.ErrInfoBlobUploadUnknown("upload session not found"))
 			} else {
 				w.WriteHeader(http.StatusInternalServerError)
 			}
@@ -588,6 +592,10 @@ func (s *Server) blobUploadPut(repoStr, sessionID string) http.HandlerFunc {
 				// the request body could not be read, the session keeps what was received
 				w.WriteHeader(http.StatusBadRequest)
 				_ = types.ErrRespJSON(w, types.ErrInfoBlobUploadInvalid("failed to read request body"))
+			} else if errors.Is(err, types.ErrNotFound) {
+				// the session was cancelled or expired while the request was in progress
+				w.WriteHeader(http.StatusBadRequest)
+				_ = types.ErrRespJSON(w, types.ErrInfoBlobUploadUnknown("upload session not found"))
 			} else {
 				w.WriteHeader(http.StatusInternalServerError)
 			}
